@@ -558,7 +558,17 @@ func genClose(r *rand.Rand, id string) *Case {
 		// command whose handler panics (recovered by the library) does not keep Close from returning
 		c.Extra["direct"] = "close"
 		c.Extra["closers"] = "1"
-		switch r.Intn(4) {
+		switch r.Intn(6) {
+		case 4:
+			// two closers are both INSIDE their wait (released from close:wait, blocked on the running
+			// command) when the handler finishes: both must return
+			c.Extra["closers"] = "2"
+			c.Extra["cmds"] = "0:q"
+			c.Extra["sched"] = "wA0,cS0,cS1,cT0,cT1,wF0,cR0,cR1"
+		case 5:
+			c.Extra["closers"] = "3"
+			c.Extra["cmds"] = "0:q"
+			c.Extra["sched"] = "wA0,cS0,cT0,cS1,cT1,cS2,cT2,wF0,cR2,cR0,cR1"
 		case 0:
 			c.Extra["cmds"] = "0:q,1:q"
 			c.Extra["sched"] = "wZ1,wA0,cS0,wZ1,wF0,cR0,wZ1"
